@@ -86,6 +86,24 @@ def run(res, rng, tier, known):
                                       ("mul", lambda x=x, ym=ym: x * ym, lambda dx=dx, dym=dym: dx * dym, Rmul)):
                     box, impl = boxed(f)
                     cases.append(Case(None, impl, chk_tt(box, dn, wide, rk, N), "%s-mixed-dtype/%s" % (op, tag), nt, desc="%s %s with %s" % (op, dtname, other_dt)))
+            # --- builtins and reflected forms: python's sum() (0 + x + ...), augmented assignment, numpy / torch scalars on the LEFT
+            Rsum = [1] + [2 * a + b + (1 if True else 0) for a, b in zip(Rx[1:-1], Ry[1:-1])] + [1]
+            box, impl = boxed(lambda x=x, y=y: sum([x, y, x]))
+            cases.append(Case(None, impl, chk_tt(box, lambda dx=dx, dy=dy: dx + dy + dx, dt, None, N), "builtin-sum/" + tag, nt, desc="sum([x, y, x])"))
+
+            def _iadd(x=x, y=y):
+                z = x
+                z += y
+                z -= x
+                z *= 2
+                return z
+            box, impl = boxed(_iadd)
+            cases.append(Case(None, impl, chk_tt(box, lambda dx=dx, dy=dy: ((dx + dy) - dx) * 2, dt, None, N), "augmented-assign/" + tag, nt, desc="z = x; z += y; z -= x; z *= 2"))
+            for lname, lv in (("np.float64", np.float64(3.0)), ("np.array0d", np.array(3.0)), ("tensor0d", tn.tensor(3.0, dtype=tn.float64)), ("np.int64", np.int64(3))):
+                for onm, f, dn in (("radd", lambda x=x, lv=lv: lv + x, lambda dx=dx: 3.0 + dx), ("rsub", lambda x=x, lv=lv: lv - x, lambda dx=dx: 3.0 - dx),
+                                   ("rmul", lambda x=x, lv=lv: lv * x, lambda dx=dx: 3.0 * dx)):
+                    box, impl = boxed(f)
+                    cases.append(Case(None, impl, chk_tt(box, dn, dt, None, N), "left-%s/%s/%s" % (lname, onm, tag), nt, desc="%s %s x" % (lname, onm)))
             # --- unary minus, full
             box, impl = boxed(lambda x=x: -x)
             cases.append(Case(J("neg", tt_tokens(x)), impl, chk_tt(box, lambda dx=dx: -dx, dt, Rx, N), "neg/" + tag, nt))
